@@ -21,7 +21,7 @@
 From AV Require Import Base.Bytes Base.Outcome Hash.HashModel Tree.Heap Tree.Ops Tree.Script.
 From AV Require Import Tree.Index Tree.IndexProofs Tree.Refs Tree.RefsProofsReport Tree.RefsProofsOps Tree.IndexProofsTiny.
 From AV Require Import Tree.Inv Spec.SpecReal Tree.CheckFn Tree.IndexProofsClosed Tree.IndexProofsTinyMove.
-From AV Require Import Tree.RefsAll Tree.IndexProofsNodeInv Tree.IndexProofsAll Tree.Script2 Tree.IndexProofsOp2.
+From AV Require Import Tree.RefsAll Tree.IndexProofsNodeInv Tree.IndexProofsAll Tree.Script2 Tree.IndexProofsOp2 Tree.SortProofsNames.
 Import Tiny.
 Open Scope list_scope.
 Open Scope N_scope.
@@ -194,6 +194,38 @@ Theorem C45_history2_partial :
             root_attrs l w = Val w' ->
   Inv04 T check_fn w' /\ Inv05 T w' /\ RX T w'.
 Proof. exact IndexProofsOp2.C45_history2_partial. Qed.
+
+(* the whole alphabet op2 except load_buffer (Pending45_3): additionally sort (side condition NameFirst), duplicate (dup_clean) *)
+Theorem C45_inv2 :
+  forall (T : tables) (tab_el tab_at tab_en : nametab) (check_fn : N -> list N -> res bool)
+         (float_parse : list N -> option N) (float_fmt : N -> list N)
+         (LATEST name_index name_definition_ref attr_schema_location : N) (root_attrs : list (N * cdata)),
+  TablesOK T check_fn ->
+  (forall ty, et_new T (autosar_element T) = Val ty -> plainty T ty) ->
+  MaskOk T ->
+  forall (w : world) (o : op2) (r : out value2) (w' : world),
+  TreeInv w -> Inv04 T check_fn w -> Inv05 T w -> RX T w ->
+  Side45_2 T tab_el tab_en check_fn LATEST root_attrs w o -> Pending45_3 o = false ->
+  run_op2 T tab_el tab_at tab_en check_fn float_parse float_fmt LATEST name_index name_definition_ref attr_schema_location
+          root_attrs o w = Val (r, w') ->
+  Inv04 T check_fn w' /\ Inv05 T w' /\ RX T w'.
+Proof. exact IndexProofsOp2.C45_inv2. Qed.
+
+Theorem C45_history2 :
+  forall (T : tables) (tab_el tab_at tab_en : nametab) (check_fn : N -> list N -> res bool)
+         (float_parse : list N -> option N) (float_fmt : N -> list N)
+         (LATEST name_index name_definition_ref attr_schema_location : N) (root_attrs : list (N * cdata)),
+  TablesOK T check_fn ->
+  (forall ty, et_new T (autosar_element T) = Val ty -> plainty T ty) ->
+  MaskOk T ->
+  forall (l : list op2) (w w' : world),
+  Inv04 T check_fn w -> Inv05 T w -> RX T w ->
+  steps_ok2a T tab_el tab_at tab_en check_fn float_parse float_fmt LATEST name_index name_definition_ref attr_schema_location
+             root_attrs l w ->
+  run_hist2 T tab_el tab_at tab_en check_fn float_parse float_fmt LATEST name_index name_definition_ref attr_schema_location
+            root_attrs l w = Val w' ->
+  Inv04 T check_fn w' /\ Inv05 T w' /\ RX T w'.
+Proof. exact IndexProofsOp2.C45_history2. Qed.
 
 Theorem C05_report :
   forall (T : tables) (check_fn : N -> list N -> res bool) (w : world) (m : N) (r : out (list id)) (w' : world),
